@@ -31,10 +31,20 @@ Proof.
   apply sem_ok_app; [exact chk_sem_6|exact chk_sem_7].
 Qed.
 
-Lemma check_sem_true c k : In c all_cfgs -> In k kinds -> check_sem c k = true.
+(* kernel-friendly extraction of one obligation: the lists stay abstract while the boolean is taken apart *)
+Lemma sem_ok_in l c k : sem_ok l = true -> In c l -> In k kinds -> check_sem c k = true.
 Proof.
-  intros Hc Hk. pose proof sem_all as H. unfold sem_ok in H. rewrite forallb_forall in H.
+  unfold sem_ok. generalize kinds. intros ks H Hc Hk. rewrite forallb_forall in H.
   specialize (H c Hc). rewrite forallb_forall in H. exact (H k Hk).
+Qed.
+Lemma check_sem_true c k : In c all_cfgs -> In k kinds -> check_sem c k = true.
+Proof. exact (sem_ok_in all_cfgs c k sem_all). Qed.
+
+Lemma guarded_in {A B} (v : A -> bool) (F : A -> B -> bool) (la : list A) (lb : list B) a b :
+  forallb (fun x => negb (v x) || forallb (F x) lb) la = true -> In a la -> v a = true -> In b lb -> F a b = true.
+Proof.
+  intros H Ha Hv Hb. rewrite forallb_forall in H. specialize (H a Ha). rewrite Hv in H. cbn [negb orb] in H.
+  rewrite forallb_forall in H. exact (H b Hb).
 Qed.
 
 (* ---- every configuration the parser can produce is one of the enumerated ones -------------------------------------- *)
@@ -164,8 +174,8 @@ Proof.
   pose proof (wf_retag g nc nt np Hlc Hlt Har) as Eg. fold ts in Eg. fold g0 in Eg.
   rewrite Eg in Hres. rewrite (resolve_gate_keep c keep g0 (pl ts) (gsrc g) (gname g, (nc, nt, np)) Hk eq_refl) in Hres.
   rewrite resolve_gate_nat in Hres.
-  pose proof basis_ok as BO. rewrite forallb_forall in BO. specialize (BO c Hc). rewrite Hv in BO. cbn [negb orb] in BO.
-  rewrite forallb_forall in BO. specialize (BO _ Hk). unfold check_basis in BO. cbn [fst snd] in BO. fold g0 in BO.
+  pose proof (guarded_in valid_cfg check_basis all_cfgs kinds c _ basis_ok Hc Hv Hk) as BO.
+  unfold check_basis in BO. cbn [fst snd] in BO. fold g0 in BO.
   destruct (resolve_gate c no_keep g0) as [gs0|]; [|discriminate]. cbn [rmap] in Hres. injection Hres as <-.
   rewrite forallb_forall in *. intros x Hx. apply in_map_iff in Hx. destruct Hx as [x0 [<- Hx0]].
   rewrite in_basis_retag. exact (BO x0 Hx0).
@@ -193,8 +203,8 @@ Proof.
   pose proof (wf_retag g nc nt np Hlc Hlt Har) as Eg. fold ts in Eg. fold g0 in Eg.
   rewrite Eg. rewrite (resolve_gate_keep c keep g0 (pl ts) (gsrc g) (gname g, (nc, nt, np)) Hk eq_refl).
   rewrite resolve_gate_nat.
-  pose proof success_ok as SO. rewrite forallb_forall in SO. specialize (SO c Hc). rewrite Hv in SO. cbn [negb orb] in SO.
-  rewrite forallb_forall in SO. specialize (SO _ Hk). unfold check_ok in SO. cbn [fst snd] in SO. fold g0 in SO.
+  pose proof (guarded_in valid_cfg check_ok all_cfgs kinds c _ success_ok Hc Hv Hk) as SO.
+  unfold check_ok in SO. cbn [fst snd] in SO. fold g0 in SO.
   destruct (resolve_gate c no_keep g0) as [gs0|]; [eexists; reflexivity|].
   apply andb_prop in SO. destruct SO as [Hn Hm]. apply orb_prop in Hn.
   assert (Hx : gname g = "SQRTSWAP"%string \/ gname g = "SQRTISWAP"%string)
@@ -258,7 +268,7 @@ Theorem resolve_invalid_string_proof s circ : mem s basis_2q_valid = false -> re
 Proof. intros H. rewrite resolve_unfold. unfold parse_basis. cbn [parse_basis_gen]. rewrite H. reflexivity. Qed.
 
 Theorem resolve_one_rotation_proof l circ :
-  length (filter (fun g => negb (mem g basis_2q_valid) && mem g basis_1q_valid) l) = 1 -> resolve (BList l) circ = Error.
+  length (filter (fun g => negb (mem g basis_2q_valid) && mem g basis_1q_valid) l) = 1%nat -> resolve (BList l) circ = Error.
 Proof. intros H. rewrite resolve_unfold. unfold parse_basis. cbn [parse_basis_gen]. rewrite H. reflexivity. Qed.
 
 Theorem resolve_rejects_measurement_proof b ops : In OpMeasure ops -> resolve_ops b ops = Error.
